@@ -8,4 +8,6 @@ for i in INS:
         OBS.append(Ob('C13', 'cvt_%s_%s' % (i, o), 'num', 'harness/cvt.c', 'h_cvt_%s_%s' % (i, o), unwind=2, cap=60,
                       desc='convertNumber/canConvertNumber %s -> %s equals the exact-range oracle' % (i, o),
                       bound='all 2^%s input values' % ('32' if '32' in i else '64'), validate=6))
+for o in ['i8', 'u8', 'i16', 'u16', 'i32', 'u32', 'i64', 'u64', 'f64']:
+    OBS.append(Ob(['C13', 'C14'], 'numcvt_' + o, 'num', 'harness/cvt.c', 'h_numcvt_' + o, unwind=2, cap=90, desc='Number::convertTo<%s>() (numeric strings): same rules as stored numbers for every literal kind' % o, bound='all (kind, 64-bit payload) pairs', validate=6))
 META = {'C13': dict(level='model_checking', assumptions=[], not_claimed=[])}
